@@ -26,7 +26,8 @@ def benign_table():
     m = json.load(open(V + "/selftest/benign/matrix.json"))
     groups = [("hand-written (b01–b19)", "b"), ("agent-written round 1 (aCxx_n; used to drive the rework)", "a"), ("agent-written round 2 (cCxx_n; written after the rework, 'be creative')", "c"),
               ("agent-written round 3 (dCxx_n; 'realistic maintainer changes')", "d"),
-              ("agent-written round 4 (eCxx_n; 'what real pull requests look like')", "e")]
+              ("agent-written round 4 (eCxx_n; 'what real pull requests look like')", "e"),
+              ("agent-written round 5 (fCxx_n; 'a commit in this project's history')", "f")]
     out = ["| suite | variants | silent on all 20 checks | alarming |", "|---|---|---|---|"]
     for title, pre in groups:
         names = sorted(k for k in m if k.startswith(pre))
